@@ -209,7 +209,7 @@ def sec_loss(ck, algo, B, NORM, CLIPV, eps, controls=False, timeout=None):
     tag = f"B={B},norm={int(NORM)}" + (f",clip={int(CLIPV)}" if algo == "ppo" else "")
     tr = trace_loss(algo, B, NORM, CLIPV)
     ck.encoded(tr)
-    concrete.validate(ck, tr, n=2, seed=ck.seed + B)
+    concrete.validate(ck, tr, n=1, seed=ck.seed + B)
     it = Interp()
     S = tr.symbols(it)
     out = tr.run(it, S)
@@ -255,18 +255,38 @@ def sec_loss(ck, algo, B, NORM, CLIPV, eps, controls=False, timeout=None):
     tid = "ppo.total" if algo == "ppo" else f"{algo}.terms.total"
     ck.prove(f"{tid}@{tag}", asm, conj([o["total"] == tot, eq_elem(o["loss"], o["total"])]), replay=rp_exact(["total"]),
              margin_goal=margin(o["total"], tot), nonlinear=True)
-    # ---- value term: proportional to the reference with one positive constant (two-instance query), same sign
-    S2 = tr.symbols(it, prefix="alt_")
-    out2 = tr.run(it, S2)
-    R2 = Ref(it, S2, B, NORM, eps)
-    asm2 = asm + ([R2.cc > 0, R2.cc < 1] if algo == "ppo" else [])
-    V, V2 = value_err(R, CLIPV), value_err(R2, CLIPV)
-    L, L2 = o["value"], out2["value"][()]
+    # ---- value term, fixed by the statement only up to ONE positive constant (DESIGN 1.4b):
+    #   B = 1: proportionality + sign as a two-instance query;  B > 1: the batch value is the MEAN of the implementation's own
+    #   single-sample values (shared sub-results), so the same constant holds for every batch size (mean, not sum)
     vid = f"ppo.value_term@clip={int(CLIPV)},B={B},norm={int(NORM)}" if algo == "ppo" else f"{algo}.terms.value@{tag}"
-    bnd2 = bnd + bounds_for(R2, S2)
-    ck.prove(vid, asm2, conj([L * V2 == L2 * V, implies(V > 0, L > 0)]),
-             replay=rp_value(tr, S, S2, it, R, R2, algo, NORM, CLIPV, eps),
-             margin_goal=implies(conj(bnd2), conj([zabs(L * V2 - L2 * V) <= Fraction(1, 20), implies(V > Fraction(1, 10), L > Fraction(1, 1000))])), nonlinear=True)
+    L = o["value"]
+    S2 = R2 = L2 = None
+    if B == 1:
+        S2 = tr.symbols(it, prefix="alt_")
+        out2 = tr.run(it, S2)
+        R2 = Ref(it, S2, B, NORM, eps)
+        asm2 = asm + ([R2.cc > 0, R2.cc < 1] if algo == "ppo" else [])
+        V, V2 = value_err(R, CLIPV), value_err(R2, CLIPV)
+        L2 = out2["value"][()]
+        bnd2 = bnd + bounds_for(R2, S2)
+        ck.prove(vid, asm2, conj([L * V2 == L2 * V, implies(V > 0, L > 0)]),
+                 replay=rp_value(tr, S, S2, it, R, R2, algo, NORM, CLIPV, eps),
+                 margin_goal=implies(conj(bnd2), conj([zabs(L * V2 - L2 * V) <= Fraction(1, 20), implies(V > Fraction(1, 10), L > Fraction(1, 1000))])), nonlinear=True)
+    else:
+        tr1 = trace_loss(algo, 1, NORM, CLIPV)
+        singles = []
+        for i in range(B):
+            S1 = {n: (S[n][i:i + 1] if n.startswith("buf_") else S[n]) for n in tr1.in_names}
+            singles.append((S1, tr1.run(it, S1)["value"][()]))
+
+        def rp_mean(res):
+            rpl = Replay(tr, S, res, it.uf_apps)
+            real = float(rpl.run()["value"])
+            ones = [float(Replay(tr1, S1, res, it.uf_apps).run()["value"]) for S1, _ in singles]
+            return differs(real, float(np.mean(ones))), {"function": tr.label, "inputs": rpl.inputs_json(), "real_value_loss_of_batch": real, "real_value_loss_of_each_sample_alone": ones,
+                                                          "what": "the value term of a batch must be the mean of the value terms of its samples"}
+        ck.prove(vid, asm, L == sum(v for _, v in singles) / B, replay=rp_mean, nonlinear=True, sample=False,
+                 margin_goal=implies(conj(bnd), zabs(L - sum(v for _, v in singles) / B) <= Fraction(1, 50)))
 
     if algo == "ppo":
         # ---- on data collected by the current policy: every ratio is 1 (the surrogate is -mean(A)) and the approximate KL is 0
@@ -286,14 +306,18 @@ def sec_loss(ck, algo, B, NORM, CLIPV, eps, controls=False, timeout=None):
 
     if controls:
         if algo == "ppo":
-            ck.control(f"control.one_sided_clip@{tag}", asm, o["policy"] == ppo_policy(R, "one_sided"), nonlinear=True)
-            wrongV, wrongV2 = (value_err(R, CLIPV, "unclipped"), value_err(R2, CLIPV, "unclipped")) if CLIPV else (value_err(R, CLIPV, "abs"), value_err(R2, CLIPV, "abs"))
-            ck.control(f"control.value_{'unclipped' if CLIPV else 'abs_error'}@{tag}", asm2, L * wrongV2 == L2 * wrongV, nonlinear=True)
-            if NORM:
+            if B > 1:
+                ck.control(f"control.one_sided_clip@{tag}", asm, o["policy"] == ppo_policy(R, "one_sided"), nonlinear=True)
+            if B == 1:
+                wrongV, wrongV2 = (value_err(R, CLIPV, "unclipped"), value_err(R2, CLIPV, "unclipped")) if CLIPV else (value_err(R, CLIPV, "abs"), value_err(R2, CLIPV, "abs"))
+                ck.control(f"control.value_{'unclipped' if CLIPV else 'abs_error'}@{tag}", asm2, L * wrongV2 == L2 * wrongV, nonlinear=True)
+            else:
+                ck.control(f"control.value_sum_not_mean@{tag}", asm, L == sum(v for _, v in singles), nonlinear=True)
+            if NORM and B > 1:
                 Rw = Ref(it, S, B, False, eps)
                 Rw.adv = normalise(it, Rw.raw_adv, eps, ddof=1)
                 ck.control(f"control.std_ddof1@{tag}", asm, o["policy"] == ppo_policy(Rw), nonlinear=True)
-        else:
+        elif B > 1:
             ck.control(f"control.{algo}.sign@{tag}", asm, o["policy"] == -pg_policy(R), nonlinear=True)
     return tr, it, S, out, R
 
@@ -318,21 +342,6 @@ def rp_value(tr, S, S2, it, R, R2, algo, NORM, CLIPV, eps, trB=None):
                      "instance_a": {"inputs": ia, "values": va, "real_value_loss": L, "float64_reference": V, "ratio": (L / V if V else None)},
                      "instance_b": {"inputs": ib, "values": vb, "real_value_loss": L2, "float64_reference": V2, "ratio": (L2 / V2 if V2 else None)}}
     return rp
-
-
-def sec_value_across_batch(ck, algo, Ba, Bb, CLIPV, eps):
-    """the constant in front of the value error does not depend on the batch size (mean, not sum)"""
-    it = Interp()
-    tra, trb = trace_loss(algo, Ba, False, CLIPV), trace_loss(algo, Bb, False, CLIPV)
-    Sa, Sb = tra.symbols(it, prefix="a_"), trb.symbols(it, prefix="b_")
-    oa, ob = tra.run(it, Sa), trb.run(it, Sb)
-    Ra, Rb = Ref(it, Sa, Ba, False, eps), Ref(it, Sb, Bb, False, eps)
-    asm = [Ra.cc > 0, Ra.cc < 1, Rb.cc > 0, Rb.cc < 1] if algo == "ppo" else []
-    La, Lb, Va, Vb = oa["value"][()], ob["value"][()], value_err(Ra, CLIPV), value_err(Rb, CLIPV)
-    vid = f"ppo.value_term@clip={int(CLIPV)},B={Ba}x{Bb}" if algo == "ppo" else f"{algo}.terms.value@B={Ba}x{Bb}"
-    bnd = bounds_for(Ra, Sa) + bounds_for(Rb, Sb)
-    ck.prove(vid, asm, La * Vb == Lb * Va, replay=rp_value(tra, Sa, Sb, it, Ra, Rb, algo, False, CLIPV, eps, trB=trb),
-             margin_goal=implies(conj(bnd), zabs(La * Vb - Lb * Va) <= Fraction(1, 20)), nonlinear=True)
 
 
 # ----------------------------------------------------------------------------- gradient obligations (tabular policy)
@@ -535,7 +544,7 @@ def main():
     ck = Check("C08", "on-policy losses equal the published objectives")
     ck.mode = "REAL"
     th = ck.thorough
-    ck.bound(batch_with_normalisation=[2, 3] if th else [2], batch_without_normalisation=[2, 3, 4] if th else [2, 3], flags="all 4 (normalize_advantages x clip_value_loss)",
+    ck.bound(batch_with_normalisation=[1, 2, 3] if th else [1, 2], batch_without_normalisation=[1, 3, 4] if th else [1, 3], flags="all 4 (normalize_advantages x clip_value_loss)",
              tabular_policy="2 states x 2 actions, batch 2" + (" and 3" if th else ""), optimiser_parameters=3,
              note="rollout-buffer contents, policy outputs (uninterpreted functions of parameter, observation, action), clip/value/entropy coefficients are symbolic reals; 0 < clip < 1")
     ck.stub("policy = uninterpreted function EV(theta, observation, action) -> (value, log_prob, entropy) for value obligations (UFACPolicy)",
@@ -552,22 +561,17 @@ def main():
     # ---- PPO, all four flag combinations
     for NORM in (False, True):
         for CLIPV in (False, True):
-            Bs = ([2, 3] if th else [2]) if NORM else ([3, 4] if th else [3])
+            Bs = ([1, 2, 3] if th else [1, 2]) if NORM else ([1, 3, 4] if th else [1, 3])
             for B in Bs:
                 with ck.section(f"ppo@B={B},norm={int(NORM)},clip={int(CLIPV)}"):
-                    sec_loss(ck, "ppo", B, NORM, CLIPV, eps, controls=(B == Bs[0]), timeout=300 if (NORM and B >= 3) else None)
-    for CLIPV in (False, True):
-        with ck.section(f"ppo.value_across_batch,clip={int(CLIPV)}"):
-            sec_value_across_batch(ck, "ppo", 2, 3, CLIPV, eps)
+                    sec_loss(ck, "ppo", B, NORM, CLIPV, eps, controls=(B in Bs[:2]), timeout=300 if (NORM and B >= 3) else None)
     # ---- A2C, REINFORCE
     for algo in ("a2c", "reinforce"):
         for NORM in (False, True):
-            Bs = ([2, 3] if th else [2]) if NORM else ([3, 4] if th else [3])
+            Bs = ([1, 2, 3] if th else [1, 2]) if NORM else ([1, 3, 4] if th else [1, 3])
             for B in Bs:
                 with ck.section(f"{algo}@B={B},norm={int(NORM)}"):
-                    sec_loss(ck, algo, B, NORM, False, eps, controls=(B == Bs[0]), timeout=300 if (NORM and B >= 3) else None)
-        with ck.section(f"{algo}.value_across_batch"):
-            sec_value_across_batch(ck, algo, 2, 3, False, eps)
+                    sec_loss(ck, algo, B, NORM, False, eps, controls=(B == Bs[1]), timeout=300 if (NORM and B >= 3) else None)
     # ---- gradient consequence
     gcfg = [(2, False, False)] + ([(2, True, True), (3, False, True)] if th else [])
     for B, NORM, CLIPV in gcfg:
